@@ -213,8 +213,8 @@ def agree(case, impl, model):
 def distribution(cs):
     d = {}
     for c in cs:
-        t = c["tags"]
-        k = "%s/%s/dom%d" % (t["src"], CODECS.get(t["codec"], t["codec"]), t["dom"])
+        t = c.get("tags") or {}
+        k = "%s/%s/dom%d" % (t.get("src", "corpus"), CODECS.get(t.get("codec"), t.get("codec")), t.get("dom", 0))
         d[k] = d.get(k, 0) + 1
     return {"cases_by_kind": {k: v for k, v in sorted(d.items())[:80]}, "total_kinds": len(d)}
 
